@@ -137,7 +137,7 @@ func init() {
 	// read-only helpers
 	for _, m := range []string{"bytes.Equal", "bytes.Compare", "bytes.Index", "bytes.IndexByte", "bytes.LastIndex", "bytes.LastIndexByte",
 		"bytes.Contains", "bytes.HasPrefix", "bytes.HasSuffix", "bytes.Count", "bytes.IndexAny", "bytes.IndexFunc", "bytes.ContainsAny",
-		"slices.Equal", "slices.Contains", "slices.Index", "slices.IndexFunc", "slices.ContainsFunc", "slices.Max", "slices.Min",
+		"slices.Equal", "slices.EqualFunc", "slices.CompareFunc", "slices.IndexFunc", "slices.MaxFunc", "slices.MinFunc", "slices.BinarySearchFunc", "slices.IsSortedFunc", "slices.Contains", "slices.Index", "slices.IndexFunc", "slices.ContainsFunc", "slices.Max", "slices.Min",
 		"slices.BinarySearch", "slices.IsSorted", "slices.Compare", "(encoding/binary.bigEndian).GoString", "(encoding/binary.littleEndian).GoString",
 		"encoding/binary.Size"} {
 		summaries[m] = pure
